@@ -206,9 +206,11 @@ def _base(a):
             a['wavelength'].val >= 0] + kit.CONST_AXIOMS
 
 
-def _side_obligations(chk, pre, tag, p, hy):
-    for nm, pc, t in p.side:
-        chk.prove(f'{pre}/{nm}[{tag}]', hy, z3.Implies(pc, t), timeout=60)
+def _side_obligations(chk, pre, tag, p, hy, base=()):
+    """side obligations recorded during the run (callee preconditions), each with the hypotheses valid at its program point"""
+    extra = [h for h in hy if not any(h is x for x in p.axioms) and not any(h is x for x in p.pc)]
+    for nm, hyps_then, t in p.side:
+        chk.prove(f'{pre}/{nm}[{tag}]', extra + kit.trig_axioms(p) + list(hyps_then), t, timeout=60)
 
 
 def generic_path(chk, mod):
